@@ -7,6 +7,11 @@ Functions under contract (real code, re-read on every run):
         _iso_now, _start_timing, _end_timing
   semantiva/trace/drivers/jsonl.py :: JsonlTraceDriver._now_timestamp
 Top-level postconditions are transcribed from the property statement.
+Parameter provenance (h_params_sources): _resolve_params_with_sources is executed on an arbitrary node configuration, context view,
+required-key list and processor parameter-name list; its loops are cut by invariants over PrefixSet(sequence, i) (spec function: the
+set of the first i elements); postcondition per declared parameter p: recorded iff resolvable, value = JsonSafe(config > context >
+signature default), source label = the channel the value came from.  _default_for and serialize_json_safe are abstract (DefaultOf,
+JsonSafe).  Bounded tier (labelled bounded): replay/c07_bounded.py on real SERs.
 """
 from __future__ import annotations
 import sys, os, json
@@ -429,74 +434,148 @@ def h_timing(spec):
     E.run_function(spec, "_start_timing;_end_timing", body)
 
 
-def h_params_sources(spec):
-    """provenance lemma: for every parameter name p the node resolves (Resolve(cfg, view, defaults, p) = v),
-    the SER says parameters[p] = JsonSafe(v) and parameter_sources[p] = the channel it came from."""
-    fn_info(spec, ORCH, "SemantivaOrchestrator._resolve_params_with_sources")
-    k = z3.Const("k!inv", V)
+Pref = z3.Function("PrefixSet", core.VArr, I_, core.VSet)       # the set of the first i elements of a sequence (spec function)
+Dflt = z3.Function("DefaultOf", I_, V, V)                     # _default_for(processor class, name)
+NO_DEFAULT = z3.Const("NO_DEFAULT_SENTINEL", V)
 
-    def decl_inv(c):
-        # loop 1 (over declared.items()): params_out/source_out hold exactly the visited declared keys
-        I = c.I
-        h = c.h
-        po, so = c.var("params_out"), c.var("source_out")
-        j = z3.Int("j!inv")
-        declared = c.var("declared")
-        dd, dv = ddom(c.h0, declared), dval(c.h0, declared)
-        visited = z3.Lambda([k], z3.Exists([j], z3.And(j >= 0, j < c.i, V.items(c.seq.at(j))[0] == k)))
-        return z3.And(
-            z3.ForAll([k], z3.Select(ddom(h, po), k) == z3.Select(visited, k)),
-            z3.ForAll([k], z3.Select(ddom(h, so), k) == z3.Select(visited, k)),
-            z3.ForAll([k], z3.Implies(z3.Select(visited, k), z3.And(
-                z3.Select(dval(h, po), k) == JsonSafe(z3.Select(dv, k)), z3.Select(dval(h, so), k) == vstr("node")))))
-    # the invariants are heavy; instead of proving the loops inductively here, the harness below uses
-    # configurations whose iteration order is an arbitrary order oracle of symbolic length via the
-    # engine's closed forms where possible.  See h_params_sources body.
+
+def pref_axioms(st, arr):
+    i = z3.Int("i!pref")
+    st.assume(Pref(arr, 0) == z3.K(V, z3.BoolVal(False)))
+    st.assume(z3.ForAll([i], z3.Implies(i >= 0, Pref(arr, i + 1) == z3.Store(Pref(arr, i), z3.Select(arr, i), True)), patterns=[Pref(arr, i + 1)]))
+
+
+class ProvSpec(NodeSpec):
+    """_resolve_params_with_sources: serialize_json_safe = JsonSafe (pure), _default_for abstract, processor parameter names a list"""
+
+    def __init__(self):
+        super().__init__()
+        self.skolem_goals = True
+        self.obj_missing = set(self.obj_missing) | {"get_default_params"}
+        self.obj_methods = dict(self.obj_methods, get_processing_parameter_names=self.m_names)
+
+    def m_names(self, I, recv, args, kwargs, star):
+        return self.NAMES
+
+    def call_override(self, I, f, args, kwargs, star):
+        fn = f.func if isinstance(f, O.HBound) else f
+        if isinstance(fn, O.HFunc) and fn.node.name == "_default_for":
+            return Dflt(V.oid(self.PROC), I.lift(args[1]))
+        if isinstance(fn, O.HFunc) and fn.node.name == "serialize_json_safe":
+            return JsonSafe(I.lift(args[0]))
+        return super().call_override(I, f, args, kwargs, star)
+
+    def global_override(self, module, name):
+        if name == "_NO_DEFAULT":
+            return NO_DEFAULT
+        return super().global_override(module, name)
+
+    def obj_attr(self, I, v, name):
+        if name == "__class__":
+            return V.obj(z3.Int("ProcessorClass"))
+        return super().obj_attr(I, v, name)
+
+
+def h_params_sources(spec):
+    """provenance lemma: for every parameter name p of the processor that the node can resolve (configuration > context > signature
+    default), the SER says parameters[p] = JsonSafe(resolved value) and parameter_sources[p] = the channel it came from."""
+    fn_info(spec, ORCH, "SemantivaOrchestrator._resolve_params_with_sources")
 
     def body(I):
         st = I.st
         me = orch_self(I)
         node, proc, cfg = sym_node(I)
-        view = in_dict(I, "view")
+        spec.PROC = proc
+        view = in_dict(I, "ctx_view")
         node_def = in_dict(I, "node_def")
-        # node_def["parameters"] is the node configuration mapping (content of cfg)
         st.assume(z3.Select(ddom(st.h, node_def), vstr("parameters")))
         st.assume(z3.Select(dval(st.h, node_def), vstr("parameters")) == cfg)
+        st.assume(z3.Select(st.h.dlen, V.id(node_def)) >= 1)
         req = in_list(I, "required_keys")
+        spec.NAMES = in_list(I, "processor_parameter_names")
+        for l in (req, spec.NAMES):
+            st.assume(z3.Select(st.h.llen, V.id(l)) >= 0)
         h0 = st.h.copy()
+        D1, C = ddom(h0, cfg), ddom(h0, view)
+        cv, vv = dval(h0, cfg), dval(h0, view)
+        ord_d, n_d = z3.Select(h0.dord, V.id(cfg)), z3.Select(h0.dlen, V.id(cfg))
+        rq_a, m = z3.Select(h0.larr, V.id(req)), z3.Select(h0.llen, V.id(req))
+        nm_a, q = z3.Select(h0.larr, V.id(spec.NAMES)), z3.Select(h0.llen, V.id(spec.NAMES))
+        for a in (ord_d, rq_a, nm_a):
+            pref_axioms(st, a)
+        # a dict's order array enumerates exactly its keys
+        st.assume(Pref(ord_d, n_d) == D1)
+        st.assume(n_d >= 0)
+        o = V.oid(proc)
+        has_d = lambda k: Dflt(o, k) != NO_DEFAULT
+        k = z3.Const("k!pv", V)
+
+        def val_src(hh, po, so, kk, in1, in2, in4c, in4d):
+            """value / source of key kk given which stage added it"""
+            pv, sv = z3.Select(dval(hh, po), kk), z3.Select(dval(hh, so), kk)
+            return z3.And(z3.Implies(in1, z3.And(pv == JsonSafe(z3.Select(cv, kk)), sv == vstr("node"))),
+                          z3.Implies(z3.And(z3.Not(in1), z3.Or(in2, in4c)), z3.And(pv == JsonSafe(z3.Select(vv, kk)), sv == vstr("context"))),
+                          z3.Implies(z3.And(z3.Not(in1), z3.Not(in2), z3.Not(in4c), in4d), z3.And(pv == JsonSafe(Dflt(o, kk)), sv == vstr("default"))))
+
+        def inv1(c):
+            po, so, hh = c.var("params_out"), c.var("source_out"), c.st.h
+            P = Pref(ord_d, c.i)
+            return z3.And(ddom(hh, po) == P, ddom(hh, so) == P,
+                          z3.ForAll([k], z3.Implies(z3.Select(P, k), z3.And(z3.Select(D1, k), z3.Select(dval(hh, po), k) == JsonSafe(z3.Select(cv, k)),
+                                                                              z3.Select(dval(hh, so), k) == vstr("node")))))
+
+        def dom2(kk, i_):
+            return z3.Or(z3.Select(D1, kk), z3.And(z3.Select(Pref(rq_a, i_), kk), z3.Select(C, kk)))
+
+        def inv2(c):
+            po, so, hh = c.var("params_out"), c.var("source_out"), c.st.h
+            in1 = z3.Select(D1, k)
+            in2 = z3.And(z3.Select(Pref(rq_a, c.i), k), z3.Select(C, k))
+            return z3.And(z3.ForAll([k], z3.Select(ddom(hh, po), k) == dom2(k, c.i)),
+                          z3.ForAll([k], z3.Select(ddom(hh, so), k) == dom2(k, c.i)),
+                          z3.ForAll([k], z3.Implies(dom2(k, c.i), val_src(hh, po, so, k, in1, in2, z3.BoolVal(False), z3.BoolVal(False)))))
+
+        def dom4(kk, i_):
+            return z3.Or(dom2(kk, m), z3.And(z3.Select(Pref(nm_a, i_), kk), z3.Or(z3.Select(C, kk), has_d(kk))))
+
+        def inv4(c):
+            po, so, hh = c.var("params_out"), c.var("source_out"), c.st.h
+            in1 = z3.Select(D1, k)
+            in2 = z3.And(z3.Select(Pref(rq_a, m), k), z3.Select(C, k))
+            in4 = z3.Select(Pref(nm_a, c.i), k)
+            return z3.And(z3.ForAll([k], z3.Select(ddom(hh, po), k) == dom4(k, c.i)),
+                          z3.ForAll([k], z3.Select(ddom(hh, so), k) == dom4(k, c.i)),
+                          z3.ForAll([k], z3.Implies(dom4(k, c.i), val_src(hh, po, so, k, in1, in2, z3.And(in4, z3.Select(C, k)), z3.And(in4, has_d(k))))))
+
+        import ast as _ast
+        fnode, _ = source.find_def(ORCH, "SemantivaOrchestrator._resolve_params_with_sources")
+        loops = sorted([n_ for n_ in _ast.walk(fnode) if isinstance(n_, (_ast.For, _ast.While))], key=lambda n_: (n_.lineno, n_.col_offset))
+        spec.loops.clear()
+        frame = lambda c: [c.var("params_out"), c.var("source_out")]
+        for idx_, (lp, inv) in enumerate(zip(loops, (inv1, inv2, None, inv4))):
+            if inv is not None:
+                spec.loop(ORCH, "SemantivaOrchestrator._resolve_params_with_sources", idx_ + 1, LoopSpec(inv, modifies_heap=True, frame_except=frame))
         _, f = E.method_of(I, ORCH, "SemantivaOrchestrator", "_resolve_params_with_sources")
         out = E.execute(I, f, [me, node, node_def, view, req])
         if out[0] != "return":
-            spec.oblige(I, "never-raises", z3.BoolVal(False))
+            spec.oblige(I, "provenance/never-raises", z3.BoolVal(False), meta={"exc": repr(out[1])})
             return
         po, so = models.unpack(I, out[1], 2)
         h = st.h
-        p = z3.Const("p", V)
-        # the run-time channel of parameter p (C01 contract of resolve_runtime_value), for the names the
-        # processor declares (ProcNames) - defaults come from the processor's metadata (Dflt), not from config
-        ProcNames = z3.Function("ProcNames", I_, core.VSet)
-        Dflt = z3.Function("DfltOf", I_, V, V)
-        NoDefault = z3.Const("NO_DEFAULT", V)
-        in_cfg = z3.Select(ddom(h0, cfg), p)
-        in_ctx = z3.Select(ddom(h0, view), p)
-        has_default = Dflt(V.oid(proc), p) != NoDefault
-        resolvable = z3.Or(in_cfg, in_ctx, has_default)
-        value = z3.If(in_cfg, z3.Select(dval(h0, cfg), p), z3.If(in_ctx, z3.Select(dval(h0, view), p), Dflt(V.oid(proc), p)))
+        p_ = fresh("any_parameter")
+        is_name = z3.Select(Pref(nm_a, q), p_)
+        in_cfg, in_ctx = z3.Select(D1, p_), z3.Select(C, p_)
+        resolvable = z3.Or(in_cfg, in_ctx, has_d(p_))
+        value = z3.If(in_cfg, z3.Select(cv, p_), z3.If(in_ctx, z3.Select(vv, p_), Dflt(o, p_)))
         label = z3.If(in_cfg, vstr("node"), z3.If(in_ctx, vstr("context"), vstr("default")))
-        # required_keys as computed by _required_keys_for: it contains at least the declared parameter names
-        # that have neither a config value nor a default (that is what _infer_context_parameters returns)
-        rq = st.list_sq(req)
-        reqset = rq.set_term()
-        pre = z3.And(z3.Select(ProcNames(V.oid(proc)), p), resolvable,
-                     z3.Implies(z3.And(z3.Not(in_cfg), z3.Not(has_default)), z3.Select(reqset, p)))
-        spec.oblige(I, "provenance:parameter-present", z3.Implies(pre, z3.Select(ddom(h, po), p)),
-                    meta={"witness": "provenance"})
-        spec.oblige(I, "provenance:value-is-the-resolved-value",
-                    z3.Implies(z3.And(pre, z3.Select(ddom(h, po), p)), z3.Select(dval(h, po), p) == JsonSafe(value)),
-                    meta={"witness": "provenance"})
-        spec.oblige(I, "provenance:source-is-the-channel",
-                    z3.Implies(z3.And(pre, z3.Select(ddom(h, so), p)), z3.Select(dval(h, so), p) == label),
-                    meta={"witness": "provenance"})
+        spec.oblige(I, "provenance/every-resolvable-parameter-of-the-processor-is-recorded", z3.Implies(z3.And(is_name, resolvable), z3.And(z3.Select(ddom(h, po), p_), z3.Select(ddom(h, so), p_))),
+                    meta={"witness": "provenance"}, hints=[p_])
+        spec.oblige(I, "provenance/recorded-value-is-the-resolved-value(config>context>default)", z3.Implies(z3.And(is_name, resolvable), z3.Select(dval(h, po), p_) == JsonSafe(value)),
+                    meta={"witness": "provenance"}, hints=[p_])
+        spec.oblige(I, "provenance/recorded-source-is-the-channel-the-value-came-from", z3.Implies(z3.And(is_name, resolvable), z3.Select(dval(h, so), p_) == label),
+                    meta={"witness": "provenance"}, hints=[p_])
+        spec.oblige(I, "provenance/an-unresolvable-parameter-is-not-recorded", z3.Implies(z3.And(is_name, z3.Not(resolvable), z3.Not(z3.Select(Pref(rq_a, m), p_))), z3.Not(z3.Select(ddom(h, po), p_))), hints=[p_])
+        spec.oblige(I, "provenance/inputs-untouched", frame_eq(h0, h, 0))
     E.run_function(spec, "_resolve_params_with_sources", body)
 
 
@@ -561,7 +640,15 @@ def h_canonical_json(spec):
     spec.assumptions |= s2.assumptions
 
 
-TASKS = [h_stable_equal, h_compute, h_pre_checks, h_post_checks, h_iso_now, h_timing, h_context_snapshot, h_canonical_json]
+def t_params_sources(spec):
+    s2 = ProvSpec()
+    s2.obligations, s2._seen, s2.undecided, s2.functions, s2.used_contracts = spec.obligations, spec._seen, spec.undecided, spec.functions, spec.used_contracts
+    h_params_sources(s2)
+    spec.path_count += s2.path_count
+    spec.assumptions |= s2.assumptions
+
+
+TASKS = [h_stable_equal, h_compute, h_pre_checks, h_post_checks, h_iso_now, h_timing, h_context_snapshot, h_canonical_json, t_params_sources]
 
 
 def factory():
